@@ -18,13 +18,20 @@
    reopen / crash operations from the empty database with well-formed transitions, every
    crash point of the next operation and every cut: open succeeds and the result is
    Consistent.  PROVED here: (1) that conclusion from PInv at the crash point
-   (C20_crash_consistent_partial), PInv of the empty database, PInv kept by every cut
-   and by the events of recovery itself; (2) alignment, idempotence, journal matching
-   and persistence of the acknowledged state for ALL worlds.  MISSING: PInv is
-   preserved by every persistence event of Update / Commit / Journal (by induction
-   over histories; checked on every generated history by the correspondence and the
-   Go oracle only).  With Recover the full statement is FALSE of the faithful model
-   (and of the code): C20_recover_stale_journal_refuted. *)
+   (C20_crash_consistent_partial), PInv / LInv of the empty database, PInv kept by every
+   cut and by the events of recovery itself, every reopened database is live
+   (C20_reopened_is_live); (2) ONE OPERATION AHEAD of any live database: every crash
+   point of the merge of one diff layer (the step Update and Commit are made of) and of
+   Journal reopens consistently and live again (C20_commit_crash_consistent,
+   C20_journal_crash_consistent); (3) alignment, idempotence, journal matching and
+   persistence of the acknowledged state for ALL worlds.  MISSING for the full statement:
+   the live invariant after a COMPLETED merge / Update / Commit / Recover (so that the
+   one-step theorems chain along a history without an intervening reopen), the events
+   of Recover, and the discharge of the journal-freshness premise from a history-level
+   "no state root recurs" hypothesis; these are checked on every generated history by
+   the correspondence and the Go oracle only.  With the Recover of the code before
+   /repo 045cec3993 (jc_legacy_recover) the full statement is FALSE of the faithful
+   model and of the code: C20_recover_stale_journal_refuted. *)
 From GV Require Import Lib.Tactics PathDB.History PathDB.HistoryProofs PathDB.Journal PathDB.JournalProofs.
 Local Open Scope N_scope.
 
@@ -42,9 +49,46 @@ Theorem C20_crash_consistent_partial : forall w lp c,
 Proof. exact crash_open_consistent. Qed.
 Print Assumptions C20_crash_consistent_partial.
 
-Theorem C20_init_invariant : forall c jf, PInv (init_world c jf 0) [].
-Proof. exact init_pinv. Qed.
+Theorem C20_init_invariant : forall c jf, PInv (init_world c jf 0) [] /\ LInv (init_world c jf 0) [] [].
+Proof. intros. split; [apply init_pinv|apply init_linv]. Qed.
 Print Assumptions C20_init_invariant.
+
+(* every database New produces from a crash state with PInv is live ([LInv]: the disk
+   layer represents its chain, history head = id, PInv, well-formed diff layers, no
+   acceptable journal ahead of the disk layer) *)
+Theorem C20_reopened_is_live : forall w lp evs w' l,
+  PInv w lp -> settled w -> open w = (evs, Done w') -> Consistent w' l lp -> LInv w' l lp.
+Proof. exact open_linv. Qed.
+Print Assumptions C20_reopened_is_live.
+
+(* ONE OPERATION AHEAD of any live database.  Merging one diff layer into the disk
+   layer -- what Update (cap) and Commit do layer by layer: state history appended
+   BEFORE the state, optional tail truncation decided from the persistent id, root->id
+   Puts, then (if the buffer is flushed) freezer sync and ONE batch with nodes, states
+   and the persistent state id: every crash point, under every cut, reopens into a
+   consistent and again live database.  Premise on the journals: the new root is not
+   the persisted root a stored journal was written for (no state recurrence). *)
+Theorem C20_commit_crash_consistent : forall w l lp d force c,
+  LInv w l lp -> d_id d = len l + 1 -> d_root d = t_root (d_tr d) ->
+  wf_tr (sem_rev l) (d_tr d) ->
+  (forall j, In (Some j) (slots w) -> j_proot j <> d_root d) ->
+  exists evs w', disk_commit w d force = (evs, Done w') /\
+    forall e, In e evs ->
+      exists evs' w'' l' lp', open (crash c (snd e)) = (evs', Done w'') /\ Consistent w'' l' lp' /\
+                              LInv w'' l' lp'.
+Proof. exact commit_crash_consistent. Qed.
+Print Assumptions C20_commit_crash_consistent.
+
+(* Journal (histories synced first; blob Put, or temp file / fsync / rename / directory
+   fsync): every crash point, under every cut, reopens consistently -- with the new
+   journal applied as soon as it is visible, the old one or none before *)
+Theorem C20_journal_crash_consistent : forall w l lp c,
+  LInv w l lp -> w_ro w = false ->
+  forall e, In e (fst (journal_op w)) ->
+    exists evs' w'' l', open (crash c (snd e)) = (evs', Done w'') /\ Consistent w'' l' lp /\
+                        LInv w'' l' lp.
+Proof. exact journal_crash_consistent. Qed.
+Print Assumptions C20_journal_crash_consistent.
 
 Theorem C20_cut_keeps_invariant : forall c w lp, PInv w lp -> PInv (crash c w) lp.
 Proof. exact crash_pinv. Qed.
